@@ -201,8 +201,8 @@ func c11Exact(c *Ctx, m *searchModel, rec []*ssa.Function) {
 						continue
 					}
 					if t := valType(a); t == nil {
-			continue
-		} else if n := namedOf(t); n != nil && core.ObjName(n.Obj()) == "Bound" {
+						continue
+					} else if n := namedOf(t); n != nil && core.ObjName(n.Obj()) == "Bound" {
 						if v, ok := absint.ConstInt(a); ok {
 							boundKnown, isExact = true, v == exact
 						}
@@ -312,4 +312,3 @@ func factEqV(st *absint.State, a, b absint.Value) bool {
 	}
 	return false
 }
-
